@@ -154,6 +154,10 @@ class Obs:
         if d.get("crashed"):
             self.crashes.append((vp.name, d.get("exc"), vp.tb))
 
+    def on_nested_start(self, w, vp, d):
+        self.nested = getattr(self, "nested", [])
+        self.nested.append((vp.name, tuple(d["argv"][:3])))
+
     def on_nested_crash(self, w, vp, d):
         self.nested_crashes.append((vp.name, " ".join(d["argv"][:3]), f"{type(d['exc']).__name__}: {d['exc']}", d["tb"]))
 
@@ -866,7 +870,7 @@ class C16(PropOracle):
                 self.v(w, "teardown command run after the completion flag was set", "teardown-after-flag")
             if len(same) > w.obs.completions + 1:
                 self.v(w, f"teardown command run {len(same)} times for {w.obs.completions + 1} completion(s)", "teardown-twice")
-            if not w.data.get("faulty"):
+            if not w.data.get("faulty") and not w.scen.get("refuse_scripts"):
                 names = {j["name"] for j in w.scen["jobs"]}
                 if not names <= h["rows"]:
                     self.v(w, f"teardown command run while jobs {sorted(names - h['rows'])} have no outcome", "teardown-early")
@@ -921,6 +925,21 @@ class C16(PropOracle):
             for k in ("node_setup", "node_teardown"):
                 if hooks.get(k) and cnt(k) != 1:
                     self.v(w, f"{k} command run {cnt(k)} times in local mode", f"{k}-count")
+        # configuring hooks (even failing teardown hooks) never prevents the node's hand-over
+        if not local:
+            ran = {n for (n, a) in getattr(o, "nested", []) if a[:2] == ("jade", "try-submit-jobs")}
+            by = {j["name"]: j for j in w.scen["jobs"]}
+            gmap = {g["name"]: g for g in w.scen["groups"]}
+            for b in w.sim.batches.values():
+                if b.vp is None or b.vp.status != "done":
+                    continue
+                grp = gmap.get(by[b.jobs[0]]["group"]) if b.jobs and b.jobs[0] in by else None
+                if grp is not None and grp["distributed"] and b.vp.name not in ran:
+                    self.v(w, f"node {b.vp.name} (batch {b.jobs}) ended without running try-submit-jobs with hooks "
+                              f"{sorted(k for k, v in hooks.items() if v)} configured (hook exit codes: {w.scen.get('hook_exit_by_kind')})", "node-no-handover")
+        if w.scen.get("refuse_scripts"):
+            # jobs are legitimately missing; the remaining clauses (all results recorded) do not apply
+            return
         # configuring hooks never prevents results from being recorded / the node's try-submit
         rows = disk_rows(w)
         names = [j["name"] for j in w.scen["jobs"]]
